@@ -49,6 +49,13 @@ class Resolver:
     async def getaddrinfo(self, host: Any, port: Any, *, family: int = 0, type: int = 0, proto: int = 0) -> list:
         w = self.world
         w.rec("getaddrinfo", host=str(host), port=port)
+        if isinstance(host, str):
+            # socket.getaddrinfo encodes a str host with the idna codec first: UnicodeError for an empty or > 63 byte label
+            try:
+                host.encode("idna")
+            except UnicodeError:
+                w.fire("resolve_bad_name")
+                raise
         ent = self.spec.get(str(host), self.spec.get("*", {"result": "error"}))
         lat = ent.get("latency", 0.0)
         fut = w.loop.create_future()
@@ -505,7 +512,10 @@ class SimDevice:
                 w.fire("silence_noise_handshake")
                 st["phase"] = "mute"
                 return
-            msg2 = resp.write_msg2()
+            msg2 = resp.write_msg2(bytes.fromhex(self.cfg.get("noise_hs_payload", "")))
+            if self.cfg.get("noise_hs_epub"):
+                # a deviating responder: its ephemeral public key replaced (e.g. by a low-order curve point)
+                msg2 = bytes.fromhex(self.cfg["noise_hs_epub"]) + msg2[32:]
             st["noise"] = resp
             st["phase"] = "data"
             st["recv_n"] = 0
@@ -562,9 +572,9 @@ class SimDevice:
         if spec == "silent":
             self.world.fire("silence_" + name)
             return
-        if spec == "default":
+        if spec == "default" or (isinstance(spec, dict) and spec.get("default")):
             acts = self._default(conn, name, msg)
-            delay = self.cfg.get("reply_delay", 0.0)
+            delay = spec["delay"] if isinstance(spec, dict) else self.cfg.get("reply_delay", 0.0)
             for a in acts:
                 a.setdefault("delay", delay)
                 self._run_action(conn, a)
@@ -614,6 +624,8 @@ class SimDevice:
         if not conn.alive_dev:
             return
         msgs = act.get("msgs", [])
+        if act.get("repeat", 1) > 1:
+            msgs = list(msgs) * int(act["repeat"])  # (long sessions without a replay file of that size)
         if msgs and self.transport == "noise" and conn.dstate.get("noise") is None:
             self.world.rec("dev_unsolicited_skipped", why="noise handshake not done")
             return
